@@ -571,9 +571,12 @@ class PseudoNetCDFFile(PseudoNetCDFSelfReg, object):
 
         def signed(a):
             # differences of unsigned integers wrap around: a descending
-            # uint16 coordinate would look ascending
+            # uint16 coordinate would look ascending; so do differences of
+            # short signed integers (int16 -30000, 0, 30000)
             if a.dtype.kind == 'u':
                 return a.astype('i8' if a.dtype.itemsize < 8 else 'd')
+            if a.dtype.kind == 'i' and a.dtype.itemsize < 8:
+                return a.astype('i8')
             return a
 
         dimv = self.variables[dim]
